@@ -79,19 +79,21 @@ Record frame := {
   lprev : disp;             (* register: what Prev::detect saw *)
   lid : N;                  (* register: the id taken from the clone *)
   res : Z;                  (* mutator: return value (1 ok/true, 0 err/false) *)
-  ran : list (N * nat)      (* ghost: actions this delivery has run so far *)
+  ran : list (N * nat);     (* ghost: actions this delivery has run so far *)
+  snap : option nat;        (* ghost: the data snapshot this delivery loaded *)
+  removed : list N          (* ghost: ids of the actions this mutator call removes *)
 }.
 
 Definition mk_frame (k : fkind) : frame :=
   {| kind := k; fpc := match k with KDeliver _ => PStart | KMut _ => MStart end;
-     vfb := VIdle; vdt := VIdle; local := sd_init; lprev := DDfl; lid := 0%N; res := 0; ran := [] |}.
+     vfb := VIdle; vdt := VIdle; local := sd_init; lprev := DDfl; lid := 0%N; res := 0; ran := []; snap := None; removed := [] |}.
 
 Definition set_pc (f : frame) (p : pc) : frame :=
-  {| kind := kind f; fpc := p; vfb := vfb f; vdt := vdt f; local := local f; lprev := lprev f; lid := lid f; res := res f; ran := ran f |}.
+  {| kind := kind f; fpc := p; vfb := vfb f; vdt := vdt f; local := local f; lprev := lprev f; lid := lid f; res := res f; ran := ran f; snap := snap f; removed := removed f |}.
 Definition set_vfb (f : frame) (v : view) (p : pc) : frame :=
-  {| kind := kind f; fpc := p; vfb := v; vdt := vdt f; local := local f; lprev := lprev f; lid := lid f; res := res f; ran := ran f |}.
+  {| kind := kind f; fpc := p; vfb := v; vdt := vdt f; local := local f; lprev := lprev f; lid := lid f; res := res f; ran := ran f; snap := snap f; removed := removed f |}.
 Definition set_vdt (f : frame) (v : view) (p : pc) : frame :=
-  {| kind := kind f; fpc := p; vfb := vfb f; vdt := v; local := local f; lprev := lprev f; lid := lid f; res := res f; ran := ran f |}.
+  {| kind := kind f; fpc := p; vfb := vfb f; vdt := v; local := local f; lprev := lprev f; lid := lid f; res := res f; ran := ran f; snap := snap f; removed := removed f |}.
 
 Definition set_dt (s : shared) (h : hl) : shared := {| dt := h; fb := fb s; dhist := dhist s; fhist := fhist s; os := os s |}.
 Definition set_fb (s : shared) (h : hl) : shared := {| dt := dt s; fb := h; dhist := dhist s; fhist := fhist s; os := os s |}.
@@ -130,8 +132,9 @@ Definition dispatch_next (sig : Z) (content : sigdata) (fbc : fbdata) : pc :=
 (** A mutator has the write guard on [data] and its view becomes [v]: clone the snapshot [c]
     and modify the clone (register takes the id from the clone). *)
 Definition load_update (f : frame) (v : view) (c : sigdata) : frame :=
-  let upd_local (l : sigdata) (id : N) (r : Z) (p : pc) :=
-    {| kind := kind f; fpc := p; vfb := vfb f; vdt := v; local := l; lprev := lprev f; lid := id; res := r; ran := ran f |} in
+  let upd_rm (l : sigdata) (id : N) (r : Z) (p : pc) (rm : list N) :=
+    {| kind := kind f; fpc := p; vfb := vfb f; vdt := v; local := l; lprev := lprev f; lid := id; res := r; ran := ran f; snap := snap f; removed := rm |} in
+  let upd_local (l : sigdata) (id : N) (r : Z) (p : pc) := upd_rm l id r p [] in
   match kind f with
   | KMut (MRegister sg tag) =>
       let id := next_id c in
@@ -146,8 +149,8 @@ Definition load_update (f : frame) (v : view) (c : sigdata) : frame :=
       match lookup sg (slots c) with
       | Some sl =>
           if has_act id (s_acts sl)
-          then upd_local {| slots := update sg {| s_prev := s_prev sl; s_acts := remove_act id (s_acts sl) |} (slots c);
-                            next_id := next_id c |} id 1 MDtSwap
+          then upd_rm {| slots := update sg {| s_prev := s_prev sl; s_acts := remove_act id (s_acts sl) |} (slots c);
+                         next_id := next_id c |} id 1 MDtSwap [id]
           else upd_local c id 0 MDtUnlock
       | None => upd_local c id 0 MDtUnlock
       end
@@ -156,7 +159,8 @@ Definition load_update (f : frame) (v : view) (c : sigdata) : frame :=
       | Some sl =>
           match s_acts sl with
           | [] => upd_local c 0%N 0 MDtUnlock
-          | _ => upd_local {| slots := update sg {| s_prev := s_prev sl; s_acts := [] |} (slots c); next_id := next_id c |} 0%N 1 MDtSwap
+          | _ => upd_rm {| slots := update sg {| s_prev := s_prev sl; s_acts := [] |} (slots c); next_id := next_id c |} 0%N 1 MDtSwap
+                        (map fst (s_acts sl))
           end
       | None => upd_local c 0%N 0 MDtUnlock
       end
@@ -191,14 +195,15 @@ Definition fstep (s : shared) (f : frame) : shared * frame * list hev :=
   | PDtPtr =>
       let '(h, v, es) := hstep (dt s) (vdt f) OLoadPtr in
       let next := dispatch_next sig (nth (held_ptr v) (dhist s) sd_init) (nth (held_ptr (vfb f)) (fhist s) None) in
-      (set_dt s h, set_vdt f v next, es)
+      (set_dt s h, {| kind := kind f; fpc := next; vfb := vfb f; vdt := v; local := local f; lprev := lprev f; lid := lid f;
+                      res := res f; ran := ran f; snap := Some (held_ptr v); removed := removed f |}, es)
   | PPrev si acts => (s, set_pc f (after_runs acts), [ev 21 0 sig (bz si) 1])
   | PRun acts =>
       match acts with
       | [] => (s, set_pc f PDtDec, [])
       | a :: rest =>
           (s, {| kind := kind f; fpc := after_runs rest; vfb := vfb f; vdt := vdt f; local := local f; lprev := lprev f;
-                 lid := lid f; res := res f; ran := ran f ++ [a] |}, [ev 22 0 (Z.of_nat (snd a)) 0 1])
+                 lid := lid f; res := res f; ran := ran f ++ [a]; snap := snap f; removed := removed f |}, [ev 22 0 (Z.of_nat (snd a)) 0 1])
       end
   | PDtDec => let '(h, v, es) := hstep (dt s) (vdt f) ODec in (set_dt s h, set_vdt f v PFbDec, es)
   | PFbDec => let '(h, v, es) := hstep (fb s) (vfb f) ODec in (set_fb s h, set_vfb f v PDone, map (shift 10) es)
@@ -225,7 +230,7 @@ Definition fstep (s : shared) (f : frame) : shared * frame * list hev :=
   | MDetect =>
       if q_ok sig
       then (s, {| kind := kind f; fpc := MFbSwap; vfb := vfb f; vdt := vdt f; local := local f; lprev := os_get s sig;
-                  lid := lid f; res := res f; ran := ran f |}, [ev 12 20 (2 * sig) 0 1])
+                  lid := lid f; res := res f; ran := ran f; snap := snap f; removed := removed f |}, [ev 12 20 (2 * sig) 0 1])
       else (s, set_pc f MErrFbUnlock, [ev 12 20 (2 * sig) 0 1])
   | MFbSwap =>
       let '(h, v, es) := hstep (fb s) (vfb f) OSwap in
@@ -244,10 +249,10 @@ Definition fstep (s : shared) (f : frame) : shared * frame * list hev :=
         ({| dt := dt s; fb := fb s; dhist := dhist s; fhist := fhist s; os := update sig DLib (os s) |},
          {| kind := kind f; fpc := MDtSwap; vfb := vfb f; vdt := vdt f;
             local := {| slots := slots l ++ [(sig, {| s_prev := old; s_acts := [(lid f, tag)] |})]; next_id := next_id l |};
-            lprev := lprev f; lid := lid f; res := res f; ran := ran f |},
+            lprev := lprev f; lid := lid f; res := res f; ran := ran f; snap := snap f; removed := removed f |},
          [ev 12 20 (2 * sig + 1) 0 1])
       else (s, {| kind := kind f; fpc := MErrDtUnlock; vfb := vfb f; vdt := vdt f; local := local f; lprev := lprev f;
-                  lid := lid f; res := 0; ran := ran f |}, [ev 12 20 (2 * sig + 1) 0 1])
+                  lid := lid f; res := 0; ran := ran f; snap := snap f; removed := removed f |}, [ev 12 20 (2 * sig + 1) 0 1])
   | MDtSwap =>
       let '(h, v, es) := hstep (dt s) (vdt f) OSwap in
       ({| dt := h; fb := fb s; dhist := dhist s ++ [local f]; fhist := fhist s; os := os s |}, set_vdt f v MDtBarrier, es)
@@ -260,7 +265,7 @@ Definition fstep (s : shared) (f : frame) : shared * frame * list hev :=
   | MErrFbUnlock =>
       let '(h, v, es) := hstep (fb s) (vfb f) OUnlock in
       (set_fb s h, {| kind := kind f; fpc := MErrDtUnlock; vfb := v; vdt := vdt f; local := local f; lprev := lprev f;
-                      lid := lid f; res := 0; ran := ran f |}, map (shift 10) es)
+                      lid := lid f; res := 0; ran := ran f; snap := snap f; removed := removed f |}, map (shift 10) es)
   | MErrDtUnlock =>
       let '(h, v, es) := hstep (dt s) (vdt f) OUnlock in
       (set_dt s h, set_vdt f v PDone, es ++ [ev 23 0 0 0 1])
